@@ -1,5 +1,6 @@
 import Driver.Proto
 import TongoModel.PoolSelect
+import TongoModel.PoolSM
 /-! Line handlers for property C13 (connection pool). Selection ops answer with the SPECIFICATION `specSelect`
 (proved equal to the model of the repaired `updateBest` in `TongoProofs.C13.select_spec`). -/
 namespace Driver
@@ -52,6 +53,124 @@ def connOfText (id : Nat) (s : String) : Option Conn :=
 def connsOfText (l : List String) : Option (List Conn) :=
   l.zipIdx.mapM (fun (s, i) => connOfText i s)
 
+/-! ### wait protocol: scripted scenarios on the transition system `PoolSM` -/
+open Tongo.PoolSM in
+/-- the actions the threads take on their own (everything except arrivals, the ticker and timers/cancellations) -/
+def autoActions (v : Variant) (s : State) : List Action :=
+  (enabledActions v s).filter fun
+    | .recv | .nRLock | .nSend _ | .nDrain _ | .nPut | .nDone | .wSub _ | .wRecv _ | .wUnsub _ | .sSend _ => true
+    | _ => false
+
+open Tongo.PoolSM in
+def settle (v : Variant) : Nat → State → State
+  | 0, s => s
+  | fuel + 1, s => match autoActions v s with
+    | [] => s
+    | a :: _ => match step v s a with
+      | some s' => settle v fuel s'
+      | none => s
+
+open Tongo.PoolSM in
+/-- every thread that has arrived is finished or parked in its select: the scenario is at rest -/
+def atRest (s : State) : Bool :=
+  s.run == .idle && s.upd.isEmpty &&
+  s.waiters.all (fun w => match w.pc with | .subRead => false | .leave _ => false | _ => true) &&
+  s.setters.all (fun x => match x.pc with | .sendLocked => false | .sendUnlocked => false | _ => true)
+
+open Tongo.PoolSM in
+def obsOf (s : State) : String :=
+  let b : Int := match s.best with | none => -1 | some c => c
+  let ws := s.waiters.map fun w => match w.pc with
+    | .start => '-'
+    | .done .ok => 'o'
+    | .done .err => 'e'
+    | .done .panic => 'p'
+    | _ => 'w'
+  s!"{b}/{s.waitList.length}/{String.ofList ws}"
+
+structure Scen where
+  strategy : Strategy
+  heads : List Nat
+  best : Option Nat
+  steps : List (List String)
+
+open Tongo.PoolSM in
+def scenInit (sc : Scen) : State :=
+  let nw := sc.steps.foldl (fun n st => match st with
+    | ["w", i, _, _] => max n (i.toNat?.getD 0 + 1)
+    | _ => n) 0
+  let targets := (List.range nw).map fun i =>
+    (sc.steps.findSome? fun st => match st with
+      | ["w", j, t, _] => if j.toNat? == some i then t.toNat? else none
+      | _ => none).getD 0
+  let pubs := sc.steps.filterMap fun st => match st with
+    | ["u", c, q] => some (c.toNat?.getD 0, q.toNat?.getD 0)
+    | _ => none
+  mkInit sc.heads sc.best targets pubs
+
+open Tongo.PoolSM in
+def apply? (v : Variant) (s : State) (as : List Action) : Option State := runTrace v s as
+
+open Tongo.PoolSM in
+/-- one script step; `k` = number of `u` steps seen so far; `shorts` = waiters with a short timer.
+Returns `none` when the model cannot take the step (a thread that should move is blocked). -/
+def scenStep (v : Variant) (sc : Scen) (s : State) (k : Nat) (shorts : List Nat) (st : List String) :
+    Option State :=
+  match st with
+  | ["w", i, _, _] => (apply? v s [.wLock (i.toNat?.getD 0)]).map (settle v 10000)
+  | ["u", _, _] => (apply? v s [.sLock k]).map (settle v 10000)
+  | ["t", mask, rtts] =>
+    let m := mask.toNat?.getD 0
+    let rs := (rtts.splitOn ".").map (fun x => x.toInt?.getD 1)
+    let conns := s.heads.zipIdx.map fun (h, i) =>
+      ({ id := i, alive := (m >>> i) % 2 == 1, seqno := BitVec.ofNat 32 h, rtt := rs.getD i 1 } : Conn)
+    let prev := match s.best with | none => none | some c => conns[c]?
+    let choice := (specSelect sc.strategy conns prev).map (·.id)
+    (apply? v s ([.tick, .ubLock] ++ List.replicate s.heads.length .ubRead ++ [.ubSet choice])).map (settle v 10000)
+  | [c, i] =>
+    let i := i.toNat?.getD 0
+    if c == "c" ∨ (c == "x" ∧ i ∈ shorts) then
+      match s.waiters[i]? with
+      | some w => if w.pc == .sel then (apply? v s [.wFire i]).map (settle v 10000) else some s
+      | none => some s
+    else if c == "x" then some s else none
+  | _ => none
+
+open Tongo.PoolSM in
+def runScen (v : Variant) (sc : Scen) : String :=
+  let shorts := sc.steps.filterMap fun st => match st with
+    | ["w", i, _, "S"] => i.toNat?
+    | _ => none
+  let rec go (s : State) (k : Nat) (acc : List String) : List (List String) → Option (State × List String)
+    | [] => some (s, acc)
+    | st :: rest =>
+      match scenStep v sc s k shorts st with
+      | none => none
+      | some s' =>
+        if atRest s' then go s' (if st.head? == some "u" then k + 1 else k) (obsOf s' :: acc) rest else none
+  match go (scenInit sc) 0 [] sc.steps with
+  | none => "hang"
+  | some (s, acc) =>
+    -- epilogue: everybody still waiting is cancelled, in order of arrival
+    let order := sc.steps.filterMap fun st => match st with
+      | ["w", i, _, _] => i.toNat?
+      | _ => none
+    let fin := order.foldl (fun (o : Option State) i => o.bind fun s =>
+      match s.waiters[i]? with
+      | some w => if w.pc == .sel then (apply? v s [.wFire i]).map (settle v 10000) else some s
+      | none => some s) (some s)
+    match fin with
+    | some s' => if atRest s' then "ok " ++ "|".intercalate ((obsOf s' :: acc).reverse) else "hang"
+    | none => "hang"
+
+def scenOf : List String → Option Scen
+  | st :: heads :: best :: steps =>
+    match (heads.splitOn "/").mapM String.toNat?, best.toInt? with
+    | some hs, some b => some { strategy := stratOf st, heads := hs, best := if b < 0 then none else some b.toNat,
+                                steps := steps.map (·.splitOn ":") }
+    | _, _ => none
+  | _ => none
+
 end C13
 
 open C13 in
@@ -73,7 +192,14 @@ def opsC13 : List (String × Handler) := [
     | st :: prev :: conns => match prev.toInt?, connsOfText conns with
       | some p, some cs => s!"ok {(resId (updateBest true (stratOf st) cs (prevOf cs p)) : Int) - 1}"
       | _, _ => "bad-op"
-    | _ => "bad-op")
+    | _ => "bad-op"),
+  ("wait.script", fun a => match scenOf a with
+    | some sc => runScen Tongo.PoolSM.fixed sc
+    | none => "bad-op"),
+  -- the same scenario on the model of the code as ORIGINALLY written (for replays)
+  ("waitorig.script", fun a => match scenOf a with
+    | some sc => runScen Tongo.PoolSM.orig sc
+    | none => "bad-op")
 ]
 
 end Driver
